@@ -167,7 +167,9 @@ def request_lines(case):
     except Unmodelled:
         return None
     return [proto.line(A('C01'), A('run'), A(case['method']), B(case['strip']), forest),
-            proto.line(A('C01'), A('events'), forest)]
+            proto.line(A('C01'), A('events'), forest),
+            None,    # slot 2: the reader on the real output (added by compare)
+            proto.line(A('C01'), A('expect'), A(case['method']), B(case['strip']), forest)]
 
 
 def reader_tokens(ans):
@@ -220,15 +222,30 @@ def compare(cases, outs, res, reparse):
         if ls is None:
             res.count('model:no-counterpart')
             continue
-        ls = ls + [proto.line(A('C01'), A('read'), A(c['method']), outs[i])]
+        ls[2] = proto.line(A('C01'), A('read'), A(c['method']), outs[i])
         for j, l in enumerate(ls):
             lines.append(l)
             idx.append((i, j))
     answers = proto.run_lines(lines)
     for (i, j), ans in zip(idx, answers):
-        stream = ['render-text', 'template-events', 'reader-vs-independent-parser'][j]
+        stream = ['render-text', 'template-events', 'reader-vs-independent-parser', 'lean-spec-vs-generator-spec'][j]
         if ans == 'unmodelled':
             res.count('model:unmodelled')
+            continue
+        if j == 3:
+            if ans == 'outside':
+                res.count('structure_preserved:case-outside-hypotheses')
+                continue
+            res.count('structure_preserved:case-inside-hypotheses')
+            exp = G.Spec(cases[i]).expected()
+            if any(t[0] == 'ALT' for t in exp):
+                res.count('structure_preserved:inside-but-generator-spec-has-alternatives')
+                continue
+            model = reader_tokens(proto.dec(ans))
+            real = G.coalesce(exp, cases[i]['strip'])
+            res.streams[stream] = res.streams.get(stream, 0) + 1
+            if model != real:
+                res.disagreements.append({'stream': stream, 'case': cases[i], 'model': repr(model)[:600], 'real': repr(real)[:600]})
             continue
         try:
             model = proto.dec(ans)
